@@ -63,6 +63,15 @@ class SessionModel(object):
             return ('value', None)
         if k == 'ghost_resume':
             return ('any',)
+        if k == 'coro_create':
+            self.pending_inner = op['inner']
+            return ('value', None)
+        if k == 'coro_await':
+            inner = getattr(self, 'pending_inner', None)
+            self.pending_inner = None
+            if inner is None:
+                return ('value', None)
+            return self.expect(inner)      # judged in the state the connection is in when the operation actually runs
         if k == 'maxchunk':
             return ('any',)
         if k == 'ss_create':
